@@ -42,7 +42,7 @@ func NewProgram(r *rand.Rand, name string, maxDepth, budget int) *Program {
 	p := &Program{Name: name}
 	g := &Gen{R: r, P: p, MaxDepth: maxDepth, budget: budget}
 	if r.Intn(3) == 0 {
-		p.Script = &ScriptTemplate{Name: name + "s1", Body: pick(r, []string{"console.log(x)", "if (x < \"b\" && x) { alert(x + 'q') }", "document.title = `t${x}`;"})}
+		p.Script = &ScriptTemplate{Name: name + "s1", Body: pick(r, []string{"console.log(x)", "if (x < \"b\" && x) { alert(x + 'q') }", "document.title = `t${x}`;"}), Sig: r.Intn(4)}
 	}
 	if r.Intn(3) == 0 {
 		p.CSS = &CSSTemplate{Name: name + "k1", Props: [][2]string{{"color", "red"}, {"margin", "0 auto"}}}
